@@ -2,23 +2,32 @@ SPEC = dict(
     claimed=True,
     title='A failing sensor or fan read/write never crashes the daemon',
     props_file='Props/C09.v', props_mod='Props.C09',
-    proof_files=['Proofs/Faults.v', 'Proofs/Daemon.v', 'Drv/Faults.v', 'Drv/Daemon.v', 'Proofs/Restore.v'],
+    proof_files=['Proofs/Faults.v', 'Proofs/FaultsOps.v', 'Proofs/PanicSites.v', 'Proofs/Daemon.v', 'Drv/Faults.v', 'Drv/Daemon.v', 'Drv/CtlRun.v', 'Proofs/Restore.v'],
     tie_vo=['Proofs/ConstsTie_basic.vo', 'Proofs/ConstsTie_restore.vo'],
     drivers=[dict(name='faults', drv_mod='Drv.Faults', drv_file='Drv/Faults.v', shard=300,
                   timeout={'quick': 900, 'thorough': 3000}),
+             dict(name='ctlrun', drv_mod='Drv.CtlRun', drv_file='Drv/CtlRun.v', shard=50,
+                  args={'quick': ['reps=1'], 'thorough': ['reps=6']}, timeout={'quick': 600, 'thorough': 1800}),
              dict(name='daemon', drv_mod='Drv.Daemon', drv_file='Drv/Daemon.v', shard=50,
                   args={'quick': ['n=16'], 'thorough': ['n=200']}, timeout={'quick': 600, 'thorough': 3000})],
     rule='faults: closed loops of 6 cycles through the real updateSensor / measureRpm / UpdateFanSpeed (+ restorePwmEnabled on error) for '
          'hwmon/file/cmd fan x hwmon/file/cmd sensor x {linear, PID, function(max) of both, nested function with a PID leaf, nested function of linear leaves}; '
          'every single fault (kind x component x cycle; quick: every (combination, fault) at a seeded cycle plus random fill-up), sampled pairs, fault storms, '
-         'stalled never-stop fans, command timeouts. daemon: process-level runs of the real RunDaemon (see C03) where a panic would be in another goroutine '
-         '(scenario 5: a controller fails its initialisation; 6/7: the sensor of a PID curve fails while regulating). Non-trivial = at least one fault in the plan; distinct = distinct case terms.',
+         'stalled never-stop fans, command timeouts; per-operation plans (500 quick / 6000 thorough): a fault on exactly the i-th hooked file operation of a cycle for every i up to 25, both kinds, '
+         'pairs within a cycle, "device gone from operation i on" (so that the writes of the restore fail too). daemon: process-level runs of the real RunDaemon (see C03) where a panic would be in another goroutine '
+         '(scenario 5: a controller fails its initialisation; 6/7: the sensor of a PID curve fails while regulating). ctlrun: the real Run in-process (see C03), incl. a control '
+         'error while the device directory has vanished, so that the writes of restorePwmEnabled fail too (a panic inside Run is recovered and reported). Non-trivial = at least one fault in the plan; distinct = distinct case terms.',
     assumptions=[
         'oracle: cy_stall (a never-stop fan found stalled at max PWM in that cycle) is taken from the observation; the numeric decision is the business of C10',
         'valid_config: function curves have at least one member and the PWM map is not empty (C11 is about configurations that violate this)',
-        'a fault regime lasts one whole cycle (all operations on the component during that cycle), PWM reads may additionally start failing at a given read index',
+        'regime plans: a fault regime lasts one whole cycle (all operations on the component during that cycle), PWM reads may additionally start failing at a given read index; '
+        'per-operation plans: the fault of the k-th fallible operation of each cycle, k counted over all file operations of the cycle in program order (C09_no_crash_ops / C09_continues_ops; '
+        'the driver compares the ORDER of the hooked file operations with the model trace, class by class)',
+        'per-operation driver cases use file-backed fans and sensors (hwmon/file), where every operation is a hooked file access; command backends are covered by the regime plans',
+        'panic sites: the list is syntactic (calls of panic / ui.Fatal / ui.FatalWithoutStacktrace / os.Exit under internal/); implicit panics (nil dereference, index, closed channel) are modelled by hand',
     ],
-    trusted_base=['hand-written error-flow model coq/Model/Faults.v (value-abstract) of updateSensor / measureRpm / UpdateFanSpeed / curve evaluation; agreement observed on the generated fault plans',
+    trusted_base=['translator tools/gen_panic_sites.py (regex-level; output gen/PanicSites.v re-checked against the classification table on every run)',
+                  'hand-written error-flow model coq/Model/Faults.v (value-abstract) of updateSensor / measureRpm / UpdateFanSpeed / curve evaluation; agreement observed on the generated fault plans',
                   'the driver re-states the four-line reaction of Run\'s control actor (error -> restorePwmEnabled -> stop); the real Run is exercised by the daemon driver'],
     partial='',
     finding_codes={13: 'D13', 5: 'D5'},
